@@ -7,14 +7,19 @@
      Inv05 w            RefsExact + OriginsTidy for every model
      Broken w m r       r has string text that does not resolve in identifiables(m), or resolves to an element whose
                         type does not accept r's DEST (missing / not an enum value / not in the target's list)
-   C05 builds on C04: Inv04 is a hypothesis.  Known05 = K05-setref (witness below); Pending05 = OpCopy OpCopyAt OpMove
-   OpMoveAt OpSetItemName OpRemoveFile OpRemoveFromFile.
+   C05 builds on C04: Inv04 is a hypothesis.  Known05 = K05-setref, K05-move-late (witnesses below).
+   Pending05 (for Inv05 given Inv04, C05_inv_partial) = OpCopy OpCopyAt OpMove OpMoveAt OpSetItemName, OpRemoveFile of the
+   last file of a model; Pending45 (both invariants, C45_inv_partial) = the same without OpSetItemName; Pending45m (C45_inv,
+   C05_history) = OpCopy OpCopyAt, OpMove/OpMoveAt of a non-identifiable element or between two models, OpRemoveFile of
+   the last file of a model.
    References WITHOUT string text are in neither map: never reported, and resolving them fails (C05_textless) —
    so "absent from the report iff resolving returns the target" holds for references with text only (C05_resolve).
-   [P] C05_inv_partial, C45_inv_partial (with set_item_name), C05_history_partial (steps: Pending45)
+   [P] C05_inv_partial, C45_inv_partial (with set_item_name), C05_history_partial (steps: Pending45),
+       C45_inv (with local moves), C05_history (closed: from the empty world), C05_history_real [F]
    [U] C05_report, C05_resolve, C05_textless *)
 From AV Require Import Base.Bytes Base.Outcome Hash.HashModel Tree.Heap Tree.Ops Tree.Script.
 From AV Require Import Tree.Index Tree.IndexProofs Tree.Refs Tree.RefsProofsReport Tree.RefsProofsOps Tree.IndexProofsTiny.
+From AV Require Import Tree.Inv Spec.SpecReal Tree.CheckFn Tree.IndexProofsClosed Tree.IndexProofsTinyMove.
 Import Tiny.
 Open Scope list_scope.
 Open Scope N_scope.
@@ -32,7 +37,7 @@ Proof. exact RefsProofsOps.C05_inv_partial. Qed.
 
 (* C04 and C05 together, one step: covers Element::set_item_name too (it needs both invariants: RefsExact to know
    that the rewritten referrers are reference elements, IndexExact for the freshness of the re-keyed paths).
-   Pending45 = OpCopy OpCopyAt OpMove OpMoveAt OpRemoveFile OpRemoveFromFile. *)
+   Pending45 = OpCopy OpCopyAt OpMove OpMoveAt, OpRemoveFile of the last file of a model. *)
 Theorem C45_inv_partial :
   forall (T : tables) (tab_el tab_en : nametab) (check_fn : N -> list N -> res bool) (LATEST : N)
          (root_attrs : list (N * cdata)),
@@ -52,6 +57,39 @@ Theorem C05_history_partial :
   Inv04 T check_fn w -> Inv05 T w -> steps_ok5 T tab_el tab_en check_fn LATEST root_attrs l w ->
   run_hist T tab_el tab_en check_fn LATEST root_attrs l w = Val w' -> Inv04 T check_fn w' /\ Inv05 T w'.
 Proof. exact RefsProofsOps.C05_history_partial. Qed.
+
+(* one step with the refined pending list: Element::move_element_here[_at] inside one model, the moved element being
+   identifiable, keeps both invariants (the path index is re-keyed, the referrers are re-targeted) *)
+Theorem C45_inv :
+  forall (T : tables) (tab_el tab_en : nametab) (check_fn : N -> list N -> res bool) (LATEST : N)
+         (root_attrs : list (N * cdata)),
+  TablesOK T check_fn ->
+  forall (w : world) (o : op) (r : out value) (w' : world),
+  TreeFacts w -> Inv04 T check_fn w -> Inv05 T w ->
+  Known04 T LATEST w o = false -> Known05 T tab_el tab_en check_fn LATEST root_attrs w o = false ->
+  Pending45m T w o = false ->
+  run_op T tab_el tab_en check_fn LATEST root_attrs o w = Val (r, w') -> Inv04 T check_fn w' /\ Inv05 T w'.
+Proof. exact IndexProofsClosed.C45_inv. Qed.
+
+(* closed form: every history from the empty world whose steps avoid the finding classes of C03, C04, C05 and the
+   constructors that are still pending (a decidable condition evaluated along the history) *)
+Theorem C05_history :
+  forall (T : tables) (tab_el tab_en : nametab) (check_fn : N -> list N -> res bool) (LATEST : N)
+         (root_attrs : list (N * cdata)),
+  TablesOK T check_fn ->
+  forall (l : list op) (w' : world),
+  clean45m T tab_el tab_en check_fn LATEST root_attrs l empty_world = true ->
+  run_ops T tab_el tab_en check_fn LATEST root_attrs l empty_world = Val w' ->
+  TreeFacts w' /\ Inv04 T check_fn w' /\ Inv05 T w'.
+Proof. exact C04_C05_history. Qed.
+
+Theorem C05_history_real :
+  forall (dfas : N -> option (list (list N) * list N)) (tab_el tab_en : nametab) (LATEST : N) (root_attrs : list (N * cdata))
+         (l : list op) (w' : world),
+  clean45m RT tab_el tab_en (check_fn_model dfas) LATEST root_attrs l empty_world = true ->
+  run_ops RT tab_el tab_en (check_fn_model dfas) LATEST root_attrs l empty_world = Val w' ->
+  TreeFacts w' /\ Inv04 RT (check_fn_model dfas) w' /\ Inv05 RT w'.
+Proof. exact C04_C05_history_rt. Qed.
 
 Theorem C05_report :
   forall (T : tables) (check_fn : N -> list N -> res bool) (w : world) (m : N) (r : out (list id)) (w' : world),
@@ -91,3 +129,12 @@ Example C05_set_reference_target_refuted :
   (exists w', Tiny.run sr_op (wof sr_pre) = Val (ER IncorrectContentType, w')) /\
   ~ Inv05 tiny (wof (sr_pre ++ [sr_op])).
 Proof. exact K05_set_reference_target_refuted. Qed.
+
+(* ---------- finding: a move that fails after the element was unlinked, re-parented and re-keyed (the rewrite of a
+   referrer is rejected): the referrer list of the old path is gone, the reference still has the old text *)
+Example C05_move_late_refuted :
+  (TreeFacts (wof ml_pre) /\ Inv04 tiny tiny_check_fn (wof ml_pre) /\ Inv05 tiny (wof ml_pre)) /\
+  Known05 tiny tiny_el tiny_en tiny_check_fn LATEST [] (wof ml_pre) ml_op = true /\
+  (exists w', Tiny.run ml_op (wof ml_pre) = Val (ER IncorrectContentType, w')) /\
+  ~ Inv05 tiny (wof (ml_pre ++ [ml_op])).
+Proof. exact K05_move_late_refuted. Qed.
